@@ -111,10 +111,26 @@ Definition scan_step (c : rgb) (t : list rgb) : N * N * N -> option (bctl (N * N
       Some (BNext (best_index3, best_distance3, index2))
     else Some (BBreak (best_index1, best_distance1, index1)).
 
+(* the loop variables in another order (the order of their `let mut`s): the same loop up to a renaming [f] of the state *)
+Definition bctl_map {S S'} (f : S -> S') (r : option (bctl S)) : option (bctl S') :=
+  match r with
+  | Some (BNext x) => Some (BNext (f x))
+  | Some (BBreak x) => Some (BBreak (f x))
+  | None => None
+  end.
+
+Lemma while_fuel0_iso {S S'} (f : S -> S') (step : S -> option (bctl S)) (step' : S' -> option (bctl S')) :
+  (forall s, step' (f s) = bctl_map f (step s)) ->
+  forall fuel s, while_fuel0 fuel step' (f s) = option_map f (while_fuel0 fuel step s).
+Proof.
+  intros H. induction fuel as [|n IH]; intros s; [reflexivity|].
+  cbn [while_fuel0]. rewrite H. destruct (step s) as [[x|x]|]; cbn [bctl_map option_map]; auto.
+Qed.
+
 (* "this translated loop body is a scan turn": case analysis driven by the goal, whatever the nesting and the
    names of the body (distance computed first or inside the test, a join or two branches, `continue`) *)
 Ltac scan_turn_tac :=
-  intros ? ? ?; unfold scan_turn; cbv beta iota zeta; unfold rgb in *;
+  intros ? ? ?; unfold scan_turn, bctl_map; cbv beta iota zeta; unfold rgb in *;
   repeat first
     [ reflexivity
     | rewrite g_distance_eq
@@ -126,7 +142,14 @@ Ltac scan_turn_tac :=
           | _ => destruct x eqn:?
           end
       end
-    | congruence ].
+    | congruence
+    | match goal with
+      | H : (_ <? _) = true |- _ => apply N.ltb_lt in H
+      | H : (_ <? _) = false |- _ => apply N.ltb_ge in H
+      | H : (_ <=? _) = true |- _ => apply N.leb_le in H
+      | H : (_ <=? _) = false |- _ => apply N.leb_gt in H
+      end
+    | exfalso; lia ].
 
 Lemma scan_step_turn c t : forall bi bd i, scan_step c t (bi, bd, i) = scan_turn c t (bi, bd, i).
 Proof. unfold scan_step. scan_turn_tac. Qed.
@@ -175,6 +198,22 @@ Proof.
   intros Hstep He -> Hf. apply aget_lt in He. apply scan_loop; [exact Hstep | unfold len in *; lia ..].
 Qed.
 
+Lemma find_loop_perm c t (f : N * N * N -> N * N * N) step fuel init start i e d0 :
+  (forall bi bd i, step (f (bi, bd, i)) = bctl_map f (scan_turn c t (bi, bd, i))) ->
+  init = f (start, d0, i) ->
+  aget t start = Some e -> i = start + 1 -> (length t < fuel)%nat ->
+  while_fuel0 fuel step init =
+  match scan c (skipn (N.to_nat (start + 1)) t) (start + 1) start d0 with
+  | Some (bi', bd') => Some (f (bi', bd', len t))
+  | None => None
+  end.
+Proof.
+  intros Hstep -> He Hi Hf.
+  rewrite (while_fuel0_iso f (scan_turn c t) step) by (intros [[bi bd] j]; apply Hstep).
+  rewrite (find_loop c t (scan_turn c t) fuel start i e d0 (fun _ _ _ => eq_refl) He Hi Hf).
+  destruct (scan c _ _ _ _) as [[bi bd]|]; reflexivity.
+Qed.
+
 (* A translated search at the head of the goal, `<translated code> = <model>` with the model's [find_best] unfolded:
    the seed read, its distance and the loop are consumed one by one, each found by its SHAPE in the goal (the table, the
    start index, the fuel and the loop body are read off the goal, not named), leaving the continuation after the loop
@@ -192,11 +231,20 @@ Ltac search_tac c :=
           destruct (distance c e') as [?d0|]; [|reflexivity]
       end;
       lazymatch goal with
-      | |- match while_fuel0 ?f ?body (?s', ?d, ?i) with _ => _ end = _ =>
-          let Hb := fresh "Hb" in
-          assert (Hb : forall bi bd i0, body (bi, bd, i0) = scan_turn c t (bi, bd, i0)) by scan_turn_tac;
-          rewrite (find_loop c t body f s' i _ d Hb He ltac:(first [reflexivity | lia]) ltac:(cbn [length]; unfold pal_f0; lia));
-          clear Hb
+      | |- match while_fuel0 ?f ?body ?init with _ => _ end = _ =>
+          (* the order of (best_index, best_distance, index) in the loop state is the order of their declarations *)
+          let go perm :=
+            let Hb := fresh "Hb" in
+            assert (Hb : forall bi bd i0, body (perm (bi, bd, i0)) = bctl_map perm (scan_turn c t (bi, bd, i0))) by scan_turn_tac;
+            erewrite (find_loop_perm c t perm body f init s _ _ _ Hb ltac:(cbv beta iota; reflexivity) He
+                        ltac:(first [reflexivity | lia]) ltac:(cbn [length]; unfold pal_f0; lia));
+            clear Hb in
+          first [ go (fun '(bi, bd, i0) => (bi, bd, i0) : N * N * N)
+                | go (fun '(bi, bd, i0) => (bd, bi, i0) : N * N * N)
+                | go (fun '(bi, bd, i0) => (bi, i0, bd) : N * N * N)
+                | go (fun '(bi, bd, i0) => (i0, bi, bd) : N * N * N)
+                | go (fun '(bi, bd, i0) => (bd, i0, bi) : N * N * N)
+                | go (fun '(bi, bd, i0) => (i0, bd, bi) : N * N * N) ]
       end
   end.
 
